@@ -391,7 +391,7 @@ func depthValues(L int) []int64 {
 
 func TestCheck(t *testing.T) {
 	r := vp.New("C01", "model_checking",
-		"configurations: chain length L x entry point (queried head h, explicit head h, announce of h, for every h) x latest-sync state (none, every index, via SetLatestSync or WithLastKnownSync) x stop (none, every index, foreign CID) x resync x depth limits (subscriber, first-sync, per-call; each in {unset, -1, 1, L-1, L, L+1}, at most two set at once) x segment size (disabled, 1..L+1, subscriber-wide or per-call) x every subset of pre-stored blocks, factored as A(what) x B(depth) with two 'how' settings, A x C(how) with two depth settings; entries chains: M x start x {SyncEntries, SyncOneEntry, SyncHAMTEntries} x depth limits x segment size x pre-stored subsets. Every configuration runs the real subscriber and publisher and is compared with an integer reference model. states = distinct base configurations; transitions = hook calls + requests observed; traces = executions.",
+		"configurations: chain length L x entry point (queried head h, explicit head h, announce of h, for every h) x latest-sync state (none, every index, via SetLatestSync or WithLastKnownSync) x stop (none, every index, foreign CID) x resync x depth limits (subscriber, first-sync, per-call; each in {unset, -1, 1, L-1, L, L+1}, at most two set at once) x segment size (disabled, 1..L+1, subscriber-wide or per-call) x every subset of pre-stored blocks, factored as A(what) x B(depth) with two 'how' settings, A x C(how) with two depth settings; plus a boundary sweep on chains of 5-6 (quick) / 5-8 (thorough) ads: every segment size 1..L+1 x every depth limit 1..L+1 of each kind x stop {none, oldest, second-oldest} x entry point; entries chains: M x start x {SyncEntries, SyncOneEntry, SyncHAMTEntries} x depth limits x segment size x pre-stored subsets. Every configuration runs the real subscriber and publisher and is compared with an integer reference model. states = distinct base configurations; transitions = hook calls + requests observed; traces = executions.",
 		"reference model is the oracle (trusted; written from the statement)",
 		"two combinations whose depth limit the documentation leaves open (resync without stop on a known publisher with FirstSyncDepth set; explicit stop on a never-synced publisher with FirstSyncDepth set) are accepted under either reading",
 		"the block hook decodes each block and names its chain link as the next segment's CID, as the segmented-sync API requires",
@@ -507,8 +507,55 @@ func TestCheck(t *testing.T) {
 			}
 		}
 	}
+	boundarySweep(t, r, thorough)
 	checkEntries(t, r, maxL)
 	t.Logf("violations: %d", r.Violations())
+}
+
+// boundarySweep: the (segment size x depth limit x stop position) plane on
+// chains longer than the main product can afford. A segment that is not
+// shortened to the remaining depth only shows when the chain is longer than the
+// depth limit, i.e. never on the short chains above.
+func boundarySweep(t *testing.T, r *vp.Recorder, thorough bool) {
+	lengths := []int{5, 6}
+	if thorough {
+		lengths = []int{5, 6, 7, 8}
+	}
+	for _, L := range lengths {
+		for _, entry := range []string{"queried", "explicit", "announce"} {
+			for seg := int64(1); seg <= int64(L)+1; seg++ {
+				for d := int64(1); d <= int64(L)+1; d++ {
+					for kind := 0; kind < 3; kind++ {
+						if entry == "announce" && kind == 2 {
+							continue
+						}
+						for _, stop := range []int{-1, 0, 1} {
+							if entry == "announce" && stop >= 0 {
+								continue
+							}
+							c := cfg{L: L, Entry: entry, H: L - 1, Latest: -1, LatestVia: "set", Stop: stop, Seg: seg}
+							switch kind {
+							case 0:
+								c.Ds = d
+							case 1:
+								c.Df = d
+							default:
+								c.Dc = d
+							}
+							check(t, r, c)
+							if seg <= 2 && entry != "announce" {
+								c.SegScoped = true
+								check(t, r, c)
+							}
+						}
+					}
+				}
+			}
+		}
+		if r.OverBudget() {
+			return
+		}
+	}
 }
 
 // ---- entries chains ----
